@@ -48,6 +48,9 @@ def cases(tier, seed):
         if tier == 'quick' and gq == 'plus3' and form == 'perpoint_var':
             continue
         out.append(dict(kind='state', model=model, lam=lam, fbase=fb, m=m, n=n, state=st, gq=gq, form=form, seed=seed))
+    # every supported quadrature order that integrates the integrand exactly (one direction at a time), uniform membrane state
+    for model, direction in itertools.product(['plate', 'cpanel'], ['x', 'y']):
+        out.append(dict(kind='gauss_sweep', model=model, direction=direction, seed=seed))
     return out
 
 
@@ -233,11 +236,48 @@ def check_state(case):
             fails.append(fail('per-point laminate table equal to the uniform laminate changes kG', sig=None, case=case))
         if np.abs(Kd - K).max() > 1e-13 * sc:
             fails.append(fail("default laminate (panel's own F) differs from passing it explicitly", sig=None, case=case))
+        # history on the same object: force_orthotropic_laminate switched on for one evaluation and off again
+        p.force_orthotropic_laminate = True
+        p.calc_kG0(c=c.copy(), nx=nx, ny=ny, silent=True, NLgeom=nl)
+        p.force_orthotropic_laminate = False
+        Kd2 = pan.dense(p.calc_kG0(c=c.copy(), nx=nx, ny=ny, silent=True, NLgeom=nl))
+        execs += 2
+        trans += 2
+        if np.abs(Kd2 - Kd).max() > 1e-13 * sc:
+            fails.append(fail('state-based kG after force_orthotropic_laminate was switched on and off again on the same object differs from before',
+                              sig=None, case=case, rel=float(np.abs(Kd2 - Kd).max() / sc)))
     return dict(fails=fails, execs=execs, transitions=trans + 1, max_ratio=err / 1e-9, nontrivial=int(sc > 1e-200))
 
 
+def check_sweep(case):
+    seed = case['seed']
+    cfg = dict(model=case['model'], a=2.0, b=1.0, r=3.0, lam='general', offset='0', fbase='FFFF', m=4, n=4, seed=seed)
+    p = pan.make_panel(cfg)
+    ref, lam = pan.make_ref(cfg)
+    F = lam['ABD']
+    eps0 = (1e-4, 0.0, 0.0) if case['model'] != 'plate' else (1e-4, -2.3e-4, 0.7e-4)
+    c = membrane_state(ref.base, *eps0) * ref.active()
+    p.calc_k0(silent=True)
+    p.Nxx, p.Nyy, p.Nxy = F[:3, :3].dot(np.array(eps0))
+    Kc = pan.dense(p.calc_kG0(silent=True))
+    sc = np.abs(Kc).max()
+    exact = (3 * (4 + 3)) // 2 + 1
+    fails = []
+    execs = 1
+    for nq in range(exact, 65):
+        nx, ny = (nq, exact) if case['direction'] == 'x' else (exact, nq)
+        K = pan.dense(p.calc_kG0(c=c.copy(), nx=nx, ny=ny, silent=True))
+        execs += 1
+        if np.abs(K - Kc).max() > 1e-9 * sc:
+            fails.append(fail('uniform membrane state does not reproduce the constant-load geometric matrix for a quadrature order that integrates the '
+                              'integrand exactly', sig=None, case=case, nx=nx, ny=ny, rel_err=float(np.abs(K - Kc).max() / sc)))
+            if len(fails) > 2:
+                break
+    return dict(fails=fails, execs=execs, transitions=execs, nontrivial=1)
+
+
 def check_case(case):
-    return check_const(case) if case['kind'] == 'const' else check_state(case)
+    return dict(const=check_const, state=check_state, gauss_sweep=check_sweep)[case['kind']](case)
 
 
 def summarize(results, tier, seed):
